@@ -332,14 +332,36 @@ Proof.
   apply in_seq in Hin. lia.
 Qed.
 
+(* without pending requests nothing is due: fire_due only re-writes the clock *)
+Lemma fire_due_quiet : forall s, acts s = [] ->
+  let s' := fire_due W s in
+  acts s' = [] /\ alive s' = alive s /\ finished s' = finished s /\ mods s' = mods s /\ now s' = now s /\
+  log s' = log s /\ ev s' = ev s /\ topoll s' = topoll s.
+Proof.
+  intros s Ha. unfold fire_due, sleep. rewrite Ha. simpl. repeat split; auto. lia.
+Qed.
+
 Lemma wait_quiet : forall s t, acts s = [] -> 0 < t ->
   let s' := wait W s t in
   acts s' = [] /\ alive s' = alive s /\ finished s' = finished s /\ mods s' = mods s /\ now s <= now s' <= now s + t /\
   (exists l, log s' = l ++ log s).
 Proof.
-  intros s t Ha Ht. unfold wait. simpl. destruct (ev s); simpl.
-  - repeat split; auto; try lia. exists [LWait (now s) t]; reflexivity.
-  - rewrite Ha. simpl. repeat split; auto; try lia. exists [LWait (now s) t]; reflexivity.
+  intros s t Ha Ht. unfold wait.
+  destruct (fire_due_quiet s Ha) as (A & L & F & M & N & G & E & _).
+  remember (fire_due W s) as s1. clear Heqs1. simpl. destruct (ev s1); simpl.
+  - rewrite A, L, F, M, N, G. repeat split; auto; try lia. exists [LWait (now s) t]; reflexivity.
+  - rewrite A. simpl. rewrite L, F, M, N, G. repeat split; auto; try lia. exists [LWait (now s) t]; reflexivity.
+Qed.
+
+(* wait; clear in a period without requests *)
+Lemma wait_clear_quiet : forall s t, acts s = [] -> 0 < t ->
+  let s' := set_ev (fire_due W (wait W s t)) false in
+  acts s' = [] /\ alive s' = alive s /\ finished s' = finished s /\ mods s' = mods s /\ now s <= now s' <= now s + t /\
+  (exists l, log s' = l ++ log s) /\ topoll s' = topoll s.
+Proof.
+  intros s t Ha Ht. destruct (wait_quiet s t Ha Ht) as (A & L & F & M & N & G).
+  destruct (fire_due_quiet _ A) as (A2 & L2 & F2 & M2 & N2 & G2 & _ & T2).
+  simpl. rewrite A2, L2, F2, M2, N2, G2, T2, L, F, M, tp_wait. repeat split; auto; lia.
 Qed.
 
 (* the state at the top of the turn, after the loop condition was evaluated *)
@@ -349,7 +371,7 @@ Definition waits (s : st) : bool :=
   (0 <? wait_time (mods s) (now s + eps W)) && (match topoll s with None => true | Some _ => false end).
 
 Lemma turn_unfold : forall s, quiet s ->
-  turn W s = if waits s then set_ev (wait W (top s) (wait_time (mods s) (now s + eps W))) false
+  turn W s = if waits s then set_ev (fire_due W (wait W (top s) (wait_time (mods s) (now s + eps W)))) false
              else slow_phase W (main_phase W (top s)).
 Proof. intros s (Ha & Al & Fi). unfold turn, waits. rewrite Fi, Al. reflexivity. Qed.
 
@@ -397,7 +419,7 @@ Lemma turn_quiet : forall s, quiet s ->
 Proof.
   intros s Q. rewrite (turn_unfold s Q). destruct (waits s) eqn:C.
   - destruct Q as (Ha & Al & Fi). unfold waits in C. apply andb_true_iff in C. destruct C as [C _]. apply Z.ltb_lt in C.
-    destruct (wait_quiet (top s) _ Ha C) as (A & L & F & M & _). unfold quiet, nmods, dsc, iv, get_mod. simpl.
+    destruct (wait_clear_quiet (top s) _ Ha C) as (A & L & F & M & _). unfold quiet, nmods, dsc, iv, get_mod.
     rewrite A, L, F, M. simpl. repeat split; auto.
   - destruct (work_spec s Q) as (Q2 & N2 & K2 & _). split; [exact Q2|]. split; [exact N2|exact K2].
 Qed.
@@ -421,9 +443,9 @@ Proof.
   pose proof (csum_nonneg s (m :: l2)) as Hc. assert (Hdm : 0 <= dmax) by (pose proof (Hd 0%nat); lia).
   revert Hen Iv. rewrite (turn_unfold s Q). intros Hen Iv. destruct (waits s) eqn:C.
   - destruct Q as (Ha & Al & Fi). unfold waits in C. apply andb_true_iff in C. destruct C as [C _]. apply Z.ltb_lt in C.
-    destruct (wait_quiet (top s) _ Ha C) as (A & L & F & M & T & _).
-    assert (Lm : lm (set_ev (wait W (top s) (wait_time (mods s) (now s + eps W))) false) m = lm s m).
-    { unfold lm, get_mod. simpl. rewrite M. reflexivity. }
+    destruct (wait_clear_quiet (top s) _ Ha C) as (A & L & F & M & T & _).
+    assert (Lm : lm (set_ev (fire_due W (wait W (top s) (wait_time (mods s) (now s + eps W)))) false) m = lm s m).
+    { unfold lm, get_mod. rewrite M. reflexivity. }
     rewrite Lm. simpl now in *.
     destruct (wait_time_le (mods s) (now s + eps W) (get_mod s m) (get_mod_in s m (split_lt _ _ _ _ Hs)) Hen0) as [W1 _].
     unfold due in W1. unfold lm, iv. lia.
@@ -458,9 +480,11 @@ Lemma no_oversleep : forall s m, quiet s -> (m < nmods s)%nat -> en s m = true -
 Proof.
   intros s m Q Hm Hen Wt. rewrite (turn_unfold s Q), Wt. destruct Q as (Ha & Al & Fi).
   unfold waits in Wt. apply andb_true_iff in Wt. destruct Wt as [C _]. apply Z.ltb_lt in C.
-  destruct (wait_quiet (top s) _ Ha C) as (_ & _ & _ & _ & T & _). simpl now in *.
+  destruct (wait_clear_quiet (top s) _ Ha C) as (_ & _ & _ & _ & T & _). simpl now in T.
   destruct (wait_time_le (mods s) (now s + eps W) (get_mod s m) (get_mod_in s m Hm) Hen) as [W1 W2].
-  unfold due in W1. unfold lm, iv, dsc. lia.
+  unfold due in W1. unfold lm, iv, dsc.
+  change (now (set_ev (fire_due W (wait W (top s) (wait_time (mods s) (now s + eps W)))) false))
+    with (now (fire_due W (wait W (top s) (wait_time (mods s) (now s + eps W))))). lia.
 Qed.
 
 (* while a slow poll round is in progress the thread does not sleep *)
